@@ -15,5 +15,6 @@ Compress1(h, blk) ==
       s == FoldLeft(rnd, h, Rng(1, 80))
   IN TLCEval([i \in 1..5 |-> Add32(h[i], s[i])])
 Pad1(msg) == LET n == Len(msg) IN msg \o <<128>> \o Zeros((119 - n) % 64) \o BitLenBE(n, 8)
+Sha1Off(msg, off) == BytesOfBE32(FoldLeft(Compress1, H1, Blocks(msg \o <<128>> \o Zeros((119 - Len(msg)) % 64) \o LenFieldBE(off, Len(msg), 8), 64)))
 Sha1(msg) == BytesOfBE32(FoldLeft(Compress1, H1, Blocks(Pad1(msg), 64)))
 =============================================================================
